@@ -43,6 +43,8 @@ def work(tier, seed):
     items = [{"blocks": [list(x) for x in bl], "grid": g}
              for bl in ot.order_types(b["max_pos"], b["max_neg"], 1, 1) for g in b["grids"]]
     items.append({"kind": "nb_points_kinds"})
+    for bl in ot.order_types(2, 2, 1, 1):
+        items.append({"kind": "special_objects", "blocks": [list(x) for x in bl]})
     for base in (2**53 - 4, 2**53, 2**60, -(2**53) - 6):
         items.append({"kind": "bigint", "base": base})
     return items
@@ -82,6 +84,83 @@ def _run_nb_points_kinds(ctx):
                 if not _isnondecreasing(getattr(r, ax)):
                     ctx.fail("x-axis-non-decreasing", case, observed="decreasing somewhere", expected="non-decreasing")
     ctx.sample({"kind": "nb_points_kinds", "menu": len(menu)})
+    return None
+
+
+def _run_special_objects(item, ctx):
+    """
+    (a) a user's subclass that overrides fnr / fpr (samples that could not be scored count as errors): the curve's
+        rates are *that object's* rates at the returned thresholds;
+    (b) scores of -inf / +inf (log(0), saturated logits): one point per scored sample when nb_points is None, rates by
+        counting.
+    """
+    from mc import refs
+    from score_analysis import Scores
+    from score_analysis.roc_curve import roc
+
+    class ScoresWithFailures(Scores):
+        failures_pos, failures_neg = 2, 1
+
+        def fnr(self, threshold):
+            cm = self.cm(threshold)
+            return (cm.fn() + self.failures_pos) / (cm.p() + self.failures_pos)
+
+        def fpr(self, threshold):
+            cm = self.cm(threshold)
+            return (cm.fp() + self.failures_neg) / (cm.n() + self.failures_neg)
+
+    blocks = [tuple(x) for x in item["blocks"]]
+    pos, neg, vals = ot.concretise(blocks, "irregular", 0)
+    for cfg in ot.CFGS:
+        sc, ec = cfg
+        # (a)
+        s = ScoresWithFailures(pos[::-1], neg[::-1], nb_easy_pos=1, score_class=sc, equal_class=ec)
+        for ax in ("fpr", "fnr"):
+            for kw in ({"nb_points": None}, {"nb_points": 5}, {"thresholds": [float(vals[0]), float(vals[-1]) + 1.0]}):
+                case = {"blocks": item["blocks"], "pos": pos, "neg": neg, "cfg": list(cfg), "object": "subclass overriding fnr / fpr", "x_axis": ax,
+                        "arguments": {k: (v if not isinstance(v, list) else v) for k, v in kw.items()}}
+                ctx.state()
+                ctx.nontrivial()
+                ok, r = guarded(ctx, "roc", case, lambda: roc(s, x_axis=ax, **kw))
+                ctx.tick()
+                if not ok:
+                    continue
+                th = np.asarray(r.thresholds, dtype=float)
+                if not (np.array_equal(np.asarray(r.fnr, dtype=float), np.asarray(s.fnr(th), dtype=float), equal_nan=True)
+                        and np.array_equal(np.asarray(r.fpr, dtype=float), np.asarray(s.fpr(th), dtype=float), equal_nan=True)):
+                    ctx.fail("rates-are-the-objects-rates-at-thresholds", case, observed=[r.fnr, r.fpr], expected=[s.fnr(th), s.fpr(th)])
+        # (b)
+        for which in ("low", "high", "both"):
+            pv = [(-math.inf if v == vals[0] and which in ("low", "both") else math.inf if v == vals[-1] and which in ("high", "both") and len(vals) > 1 else v)
+                  for v in pos]
+            nv = [(-math.inf if v == vals[0] and which in ("low", "both") else math.inf if v == vals[-1] and which in ("high", "both") and len(vals) > 1 else v)
+                  for v in neg]
+            si = Scores(pv[::-1], nv[::-1], score_class=sc, equal_class=ec)
+            for ax in ("fpr", "tnr"):
+                case = {"blocks": item["blocks"], "pos": [str(v) for v in pv], "neg": [str(v) for v in nv], "cfg": list(cfg), "object": "infinite scores",
+                        "x_axis": ax}
+                ctx.state()
+                ctx.nontrivial()
+                ok, r = guarded(ctx, "roc", case, lambda: roc(si, nb_points=None, x_axis=ax))
+                ctx.tick()
+                if not ok:
+                    continue
+                th = np.asarray(r.thresholds, dtype=float)
+                if len(th) != len(pv) + len(nv):
+                    ctx.fail("default-curve-length", case, observed=len(th), expected=len(pv) + len(nv))
+                    continue
+                if sorted(th.tolist()) != sorted(pv + nv):
+                    ctx.fail("one-point-per-scored-sample", case, observed=[str(t) for t in th.tolist()], expected=[str(t) for t in sorted(pv + nv)])
+                    continue
+                for t, fn_, fp_ in zip(th.tolist(), np.asarray(r.fnr, dtype=float).tolist(), np.asarray(r.fpr, dtype=float).tolist()):
+                    want = refs.ref_rates(refs.ref_cm(pv, nv, t, sc, ec))
+                    if not (refs.same_float(fn_, want["fnr"]) and refs.same_float(fp_, want["fpr"])):
+                        ctx.fail("rates-are-the-objects-rates-at-thresholds", dict(case, threshold=str(t)), observed=[fn_, fp_],
+                                 expected=[float(want["fnr"]), float(want["fpr"])])
+                        break
+                if not _isnondecreasing(getattr(r, ax)):
+                    ctx.fail("x-axis-non-decreasing", case, observed=getattr(r, ax), expected="non-decreasing")
+    ctx.sample({"kind": "special_objects", "blocks": item["blocks"]})
     return None
 
 
@@ -138,6 +217,8 @@ def run(item, ctx, tier, seed):
         return _run_nb_points_kinds(ctx)
     if item.get("kind") == "bigint":
         return _run_bigint(item, ctx)
+    if item.get("kind") == "special_objects":
+        return _run_special_objects(item, ctx)
     blocks = [tuple(x) for x in item["blocks"]]
     if item["grid"] in ot.MIXED_KINDS:  # classes stored in different dtypes, the narrower unable to hold the other's values
         pos, neg, vals, parr, narr = ot.concretise_mixed(blocks, item["grid"])
